@@ -59,6 +59,14 @@ func NewSyncCommitteePool(spec *common.Spec) *SyncCommitteePool {
 	return &SyncCommitteePool{
 		spec:        spec,
 		currentSlot: ^common.Slot(0),
+
+		prevContribs:    make(SyncCommitteeContributions),
+		currentContribs: make(SyncCommitteeContributions),
+		nextContribs:    make(SyncCommitteeContributions),
+
+		prevMsgs:    make(SyncCommitteeMessages, spec.SYNC_COMMITTEE_SIZE),
+		currentMsgs: make(SyncCommitteeMessages, spec.SYNC_COMMITTEE_SIZE),
+		nextMsgs:    make(SyncCommitteeMessages, spec.SYNC_COMMITTEE_SIZE),
 	}
 }
 
@@ -117,6 +125,8 @@ func (sp *SyncCommitteePool) PackAggregate(ctx context.Context, slot common.Slot
 }
 
 func (sp *SyncCommitteePool) Reset(slot common.Slot) {
+	sp.Lock()
+	defer sp.Unlock()
 	if sp.currentSlot == slot+1 {
 		sp.nextMsgs = sp.currentMsgs
 		sp.currentMsgs = sp.prevMsgs
